@@ -98,6 +98,8 @@ pub fn shape_of(a: &Action) -> (u8, bool, bool, u8) {
 }
 
 pub fn trigger<R: rand_core::RngCore>(fw: &mut FwR<'_, R>, events: &[TriggerEvent], now: VClock) -> Vec<Act> {
+    // a runaway call becomes a panic of the hook instead of exhausting memory (the bound itself is C01's)
+    fw.verif_set_budget(64 * (events.len() + 1) * (fw.num_machines() + 1));
     fw.trigger_events(events, now).map(act_of).collect()
 }
 
